@@ -37,6 +37,12 @@ def correspondence(chk, drv):
     pbc = import_repo()
     n = 40 if chk.tier == 'quick' else 3000
     trajcorr.corr_fire(chk, drv, pbc, n, want_extra=True, cfg_default=0.7, label='fire-extra')
+    trajcorr.corr_lob(chk, drv, pbc, 2 if chk.tier == 'quick' else 60)
+    # dense range rows (every 1-3 integration steps) across the crossings: events that fall into the very step that also
+    # produces a range row
+    trajcorr.corr_fire(chk, drv, pbc, 12 if chk.tier == 'quick' else 600, want_extra=True, cfg_default=0.8, label='fire-extra-dense',
+                       gen_kwargs={'flat': True, 'allow_cant': False, 'max_look': 10.0},
+                       requests=lambda rng: (rng.choice([150.0, 300.0, 600.0]), rng.choice([0.5, 1.0, 1.5]), True, 0.0))
 
 
 def search(chk, broken):
@@ -57,8 +63,11 @@ def search(chk, broken):
         if shot.atmo.density_ratio == 0:
             continue
         R = rng.choice([900.0, 2400.0, 4500.0])
+        rec = R / 7
+        if rng.random() < 0.4:
+            R, rec = rng.choice([300.0, 600.0]), rng.choice([0.5, 1.0, 1.5])    # range rows in (nearly) every step, also in the step of a crossing
         try:
-            rows = calc.fire(shot, U.Foot(R), U.Foot(R / 7), True).trajectory
+            rows = calc.fire(shot, U.Foot(R), U.Foot(rec), True).trajectory
             dense = calc.fire(shot, U.Foot(R), U.Foot(2.0), False).trajectory
         except pbc.RangeError as e:
             continue
@@ -107,4 +116,31 @@ def search(chk, broken):
         except ArithmeticError:
             if ups or downs:
                 chk.failures.append(Failure('zeros-accessor', 'zeros() raised although zero rows exist', desc))
+    # lobbed low-drag projectiles: the speed may fall through the speed of sound more than once - a MACH row EACH time
+    calc = pbc.Calculator()
+    for _ in range(3 if (chk.tier == 'quick' and not broken) else 80):
+        if chk.over():
+            break
+        shot = sg.gen_lob(pbc, rng)
+        try:
+            rows = calc.fire(shot, U.Foot(60000), U.Foot(6000), True, 0.25).trajectory
+        except pbc.RangeError as e:
+            rows = e.incomplete_trajectory
+        evals += 1
+        # robust falls on the row stream (hysteresis 1.002 / 0.998): each implies a distinct step-level fall through Mach 1
+        falls, state = 0, None
+        for r in rows:
+            if r.mach > 1.002:
+                state = 'super'
+            elif r.mach < 0.998:
+                if state == 'super':
+                    falls += 1
+                state = 'sub'
+        machs = [r for r in rows if int(r.flag) & 4]
+        if len(machs) < falls:
+            chk.failures.append(Failure('mach-row-each-time', f'a projectile (BC {shot.ammo.dm.BC:.2f}, {shot.ammo.mv >> U.FPS:.0f} fps) lobbed at '
+                                                              f'{shot.relative_angle >> U.Degree:.1f} deg falls through the speed of sound {falls} times but has {len(machs)} MACH rows',
+                                        {'op': 'lob', 'bc': shot.ammo.dm.BC, 'mv_fps': shot.ammo.mv >> U.FPS, 'elevation_deg': shot.relative_angle >> U.Degree,
+                                         'falls': falls, 'mach_rows': len(machs)}))
+        chk.stats.setdefault('lob_falls', []).append(falls)
     chk.search_evals += evals
